@@ -195,7 +195,7 @@ class DSDLDefinition(ReadableDSDLFile):
         # Parsing the fixed port ID, if specified; None if not
         if str_fixed_port_id is not None:
             try:
-                self._fixed_port_id: int | None = int(str_fixed_port_id)
+                self._fixed_port_id: int | None = _parse_decimal(str_fixed_port_id)
             except ValueError:
                 raise FileNameFormatError(
                     "Not a valid fixed port-ID: %s. "
@@ -209,7 +209,7 @@ class DSDLDefinition(ReadableDSDLFile):
 
         # Parsing the version numbers
         try:
-            self._version = Version(major=int(str_major_version), minor=int(str_minor_version))
+            self._version = Version(major=_parse_decimal(str_major_version), minor=_parse_decimal(str_minor_version))
         except ValueError:
             raise FileNameFormatError("Could not parse the version numbers", path=self._file_path) from None
 
@@ -360,6 +360,15 @@ class DSDLDefinition(ReadableDSDLFile):
             return "DSDLDefinition(UNINITIALIZED)"
 
     __repr__ = __str__
+
+
+def _parse_decimal(text: str) -> int:
+    """
+    Like :func:`int` but accepts ASCII decimal digits only: no sign, no blanks, no digit separators.
+    """
+    if not (text.isascii() and text.isdigit()):
+        raise ValueError("Not a decimal number: %r" % text)
+    return int(text)
 
 
 # +-[UNIT TESTS]------------------------------------------------------------------------------------------------------+
